@@ -58,7 +58,8 @@ def native_replay(group, description, inputs, workdir):
         out, rc = "TIMEOUT", -9
     hit = ("REPLAY-FAIL: " + description) in out
     crashed = rc < 0 or rc >= 128
-    return {"reproduced": bool(hit or crashed), "status": "obligation failed natively" if hit else ("native run died with status %d" % rc if crashed else "not reproduced natively (rc=%d)" % rc),
+    safety = any(k in description for k in ("dereference failure", "array", "bounds", "division by zero", "overflow"))
+    return {"reproduced": bool(hit or (crashed and safety)), "status": "obligation failed natively" if hit else ("native run died with status %d" % rc if crashed else "not reproduced natively (rc=%d)" % rc),
             "cmd": " ".join(cmd), "values": [to_int(i.get("value")) for i in inputs][:64], "output": out[-1200:]}
 
 
